@@ -324,7 +324,12 @@ func (e *Env) processFailures(s *Spec, agg *Agg, known *Known) (*Outcome, error)
 		if err := writeJSON(cand, doc); err != nil {
 			return nil, troublef("%v", err)
 		}
-		rr := e.RunReplay(f.Variant, s.ID, cand, 0, env, s.extra(e)...)
+		var rr *ReplayResult
+		if f.Class == "crash" {
+			rr = &ReplayResult{} // a crash has no case of its own: it is replayed with its process history below
+		} else {
+			rr = e.RunReplay(f.Variant, s.ID, cand, 0, env, s.extra(e)...)
+		}
 		if f.Class == "race" {
 			// whether the detector still holds the earlier access in its shadow cells when the
 			// later one arrives is not a function of the schedule alone: a report may need
